@@ -994,6 +994,52 @@ def tag_emit(F):
             r.ob(g, {"add_injection guarded by pull_side_effects": g})
             if not g:
                 r.violate("%s | unguarded add_injection" % fn["path"], F.loc(fn, node), "side-effect record is produced even when side effects were not requested")
+    # a record stands for what the section loop emits: within the loop body that emits an entity, the record is made for
+    # exactly the entities that are emitted — (1) every `deleted` test the emission sits under also guards the record (a
+    # deleted export is not reported), (2) the record is not under a kind test (`is_function()`, ..) the emission is not under
+    # (a tagged imported global is reported like a tagged imported function)
+    KIND_TESTS = ("is_function", "is_global", "is_memory", "is_table", "is_tag", "is_local", "is_import")
+    for lp in walk(fn["body"]):
+        if not (lp.get("k") == "Match" and lp.get("src") == "ForLoopDesugar"):
+            continue
+        inner = [m_ for m_ in walk(lp["arms"][0]["body"]) if m_.get("k") == "Match" and m_ is not lp]
+        per_item = None
+        for a_ in (inner[0]["arms"] if inner else []):
+            if a_["pat"].get("variant") == "Some":
+                per_item = a_["body"]
+        if per_item is None:
+            continue
+        if any(x.get("k") == "Match" and x.get("src") == "ForLoopDesugar" for x in walk(per_item)):
+            continue        # outer loops: judged at the innermost loop
+        sinks_ = [x for x in walk(per_item) if x.get("k") == "MethodCall" and "wasm_encoder" in (x.get("recv_ty") or "") and x["method"] not in ("new", "len", "is_empty")]
+        recs_ = [x for x in walk(per_item) if x.get("k") == "Call" and (x.get("callee") or "").endswith("::add_injection")]
+        if not sinks_ or not recs_:
+            continue
+
+        def if_anc(node):
+            return [c_ for c_ in (conditional_ancestors(per_item, node) or []) if c_.get("k") == "If"]
+        sink_ifs = [c_ for s_ in sinks_ for c_ in if_anc(s_)]
+        for rec_ in recs_:
+            rec_ifs = if_anc(rec_)
+            rec_conds = guard_conditions(per_item, rec_)
+            # (1) deleted tests of the emission
+            for c_ in sink_ifs:
+                if not any((y.get("k") == "Field" and y["name"] == "deleted") or (y.get("k") == "MethodCall" and y["method"] == "is_deleted") for y in walk(c_["cond"])):
+                    continue
+                covered = any(c_ is r_ for r_ in rec_ifs) or any(pol in (True, False) and any((y.get("k") == "Field" and y["name"] == "deleted") or (y.get("k") == "MethodCall" and y["method"] == "is_deleted") for y in walk(cd_)) for pol, cd_ in rec_conds)
+                r.ob(covered, {"record shares the emission's deleted test": covered})
+                if not covered:
+                    r.violate("%s | record for deleted entity" % fn["path"], F.loc(fn, rec_),
+                              "a side-effect record is produced outside the `deleted` test its section emission sits under: an entity that was added and deleted again is reported although the encoded module does not contain it")
+            # (2) kind tests the emission is not under
+            for c_ in rec_ifs:
+                if any(c_ is s_ for s_ in sink_ifs):
+                    continue
+                kt = [y["method"] for y in walk(c_["cond"]) if y.get("k") == "MethodCall" and y["method"] in KIND_TESTS]
+                if kt:
+                    r.ob(False, {"record only for": kt})
+                    r.violate("%s | record only under %s" % (fn["path"], kt[0]), F.loc(fn, rec_),
+                              "a side-effect record is produced only if `%s()` holds, while the section loop emits entities of every kind: a tagged entity of another kind is in the encoded module but missing from the report" % kt[0])
     # records that carry an initialiser / offset expression are built after that expression's ids were remapped: the report
     # and the encoded module must name the same globals and functions
     fixes_by_root = {}
